@@ -226,15 +226,25 @@ func runC17(c *Check) {
 		if app == nil || mk == nil {
 			c.undecided("C17-R5", "places", p.relFile(fp.Pos()), "fillPlaces keeps no per-stack set of the sources already recorded (no map is created in it): it cannot be shown that a source revisited later in the same stack (mutual recursion) is listed once, at its outermost occurrence")
 		} else {
+			// "the source is already in the set": m[src] for a map to bool, or the ok flag of a
+			// comma-ok lookup for any other element type
+			inSet := func(v ssa.Value) bool {
+				if lk, ok := v.(*ssa.Lookup); ok && lk.X == ssa.Value(mk) && !lk.CommaOk {
+					return true
+				}
+				if ex, ok := v.(*ssa.Extract); ok && ex.Index == 1 {
+					if lk, ok := ex.Tuple.(*ssa.Lookup); ok && lk.X == ssa.Value(mk) && lk.CommaOk {
+						return true
+					}
+				}
+				return false
+			}
 			reach := reachUnder(fp, func(cond ssa.Value) int {
-				// the seen-set lookup is true
-				if lk, ok := cond.(*ssa.Lookup); ok && lk.X == ssa.Value(mk) {
+				if inSet(cond) {
 					return 1
 				}
-				if u, ok := cond.(*ssa.UnOp); ok && u.Op == token.NOT {
-					if lk, ok := u.X.(*ssa.Lookup); ok && lk.X == ssa.Value(mk) {
-						return -1
-					}
+				if u, ok := cond.(*ssa.UnOp); ok && u.Op == token.NOT && inSet(u.X) {
+					return -1
 				}
 				return 0
 			})
